@@ -3,6 +3,7 @@ import RdpModel.Spec.Bitmap
 import RdpModel.Props.C08
 import RdpModel.Lemmas.Planar
 import RdpModel.Lemmas.PlanarEnc
+import RdpModel.Lemmas.Rle16Main
 /-
   C09 — Decompressed bitmaps are pixel-exact.
   Proved here: exact colour widening for every 16-bit value; the uncompressed 32 bpp and
@@ -215,3 +216,98 @@ theorem c09_planar_roundtrip (w h : Nat) (A R G B : List (List Nat))
 
 end Rdp.Codec
 
+
+namespace Rdp.Codec
+open Rdp Rdp.Spec.Bitmap Rdp.Rle16
+
+/-! ### interleaved RLE at 16 bpp is exact (streams that respect the first-scanline boundary) -/
+
+theorem topDown_map {α β : Type} (f : α → β) (w : Nat) (l : List α) : topDown w (l.map f) = (topDown w l).map f := by
+  simp [topDown, List.map_drop, List.map_take, List.map_flatten, List.map_reverse, Function.comp_def]
+
+theorem extract_toList_range (a : Array UInt16) (n : Nat) (hn : n ≤ a.size) :
+    (a.extract 0 n).toList = (List.range n).map fun j => a.getD j 0 := by
+  apply List.ext_getElem
+  · simp; omega
+  · intro i h1 h2
+    simp at h1 h2
+    simp [Array.getD_eq_getD_getElem?, Array.getElem?_eq_getElem (show i < a.size by omega)]
+
+theorem widen_of_widen565 (v : UInt16) : (widen565 v.toNat).map UInt8.ofNat = widen v := by
+  rw [← c09_widen, List.map_map]
+  have : (UInt8.ofNat ∘ UInt8.toNat) = id := by funext x; simp
+  rw [this, List.map_id]
+
+/-- the initial states are related -/
+theorem rel_init (src : Bytes) (w h : Nat) (hw : 0 < w) :
+    Rel src.toArray w h (initSt w h (Array.replicate (w * h * 2) 0)) ⟨[], WHITE, false, true⟩ src := by
+  refine ⟨⟨⟨?_, Nat.le_refl _, Nat.le_refl _, fun _ => rfl, ?_, ?_, ?_⟩, fun _ => ⟨rfl, rfl⟩, ?_⟩, hw, rfl, rfl, ?_, ?_, ?_, ?_, ?_, ?_, ?_⟩
+  · simp [initSt]; rw [Nat.mul_comm h w]; omega
+  · intro l hl; simp [initSt] at hl
+  · intro e he; simp [initSt] at he
+  · intro hx; simp [initSt] at hx
+  · intro _ hl; simp [initSt] at hl
+  · simp [toNats, flat, emitted, initSt]
+  · simp [initSt, WHITE]
+  · simp [srcOf, initSt]
+  · simp [initSt]
+  · intro _; simp
+  · intro hf; simp at hf
+  · intro hf; simp at hf
+
+/-- **Interleaved RLE at 16 bpp is exact** for every stream the reference decoder
+    (MS-RDPBCGR 3.1.9 `RleDecompress`, Spec/Bitmap.lean) accepts in which no order crosses
+    the end of the first scanline and every order is of a kind listed in
+    `Rle16.supported`: `decompress` returns the reference raster, rows top-down, every
+    pixel widened exactly (`c09_widen`). -/
+theorem c09_rle16_supported (w h : Nat) (hw : 0 < w) (src : Bytes) (flat : List Pixel)
+    (href : rle16Decode w h src = some flat)
+    (hnc : noFirstLineCrossing w h src = true)
+    (hsup : supportedLoop w (w * h) (src.length + 1) ⟨[], WHITE, false, true⟩ src = true) :
+    decompress ⟨w, h, 16, true, src.toArray⟩ = .ok (((topDown w flat).flatMap widen565).map UInt8.ofNat) := by
+  unfold rle16Decode at href
+  cases hdec : decodeLoop w (w * h) (src.length + 1) ⟨[], WHITE, false, true⟩ src with
+  | none => rw [hdec] at href; cases href
+  | some dfin =>
+    rw [hdec] at href
+    simp only at href
+    by_cases hlen : dfin.dest.length = w * h
+    · simp only [hlen, if_true, Option.some.injEq] at href
+      obtain ⟨sfin, hord, rfin⟩ := orders_sim (inp := src.toArray) hw (src.length + 1) (rel_init src w h hw) hdec
+        hnc hsup (src.length + 1) (by omega)
+      have hsz : w * h ≤ sfin.out.size := by have := rfin.inv.inv.size; rw [Nat.mul_comm]; exact this
+      have hem : emitted w h sfin = w * h := by rw [← hlen, ← rfin.dest, toNats_length, flat_length]
+      unfold decompress
+      simp only [show ¬ ((16 : Nat) = 32) by decide, if_false, if_true]
+      unfold Rle16.decompress
+      have hsize : (List.toArray src).size + 1 = src.length + 1 := by simp
+      rw [hsize, hord]
+      simp only [Outcome.bind_ok]
+      unfold rgb565torgb32
+      rw [if_pos hsz]
+      congr 1
+      rw [← Array.foldl_toList, foldl_widen_toList]
+      rw [extract_toList_range _ _ hsz]
+      -- the reference raster, top-down, is the buffer
+      have hflat : flat = toNats ((List.range (w * h)).map fun i => sfin.out.getD (cell w h i) 0) := by
+        rw [← href, ← rfin.dest]; unfold Rle16.flat; rw [hem]
+      rw [hflat]
+      unfold toNats
+      rw [topDown_map, topDown_cells (fun j => sfin.out.getD j 0) w hw h, List.flatMap_map, List.map_flatMap]
+      simp only [List.flatMap_map, widen_of_widen565]
+      have : (Array.mkEmpty (w * h * 4) : Array UInt8).toList = [] := rfl
+      rw [this, List.nil_append]
+    · simp [hlen] at href
+
+end Rdp.Codec
+
+namespace Rdp.Codec
+open Rdp Rdp.Spec.Bitmap Rdp.Rle16
+
+/-- the premises are satisfiable: white, a one-pixel background run, then a background run
+    on the second scanline that starts with the inserted foreground pixel -/
+example : rle16Decode 2 2 [0xFD, 0x01, 0x02] = some [0xFFFF, 0, 0, 0] ∧
+    noFirstLineCrossing 2 2 [0xFD, 0x01, 0x02] = true ∧
+    supportedLoop 2 (2 * 2) 4 ⟨[], WHITE, false, true⟩ [0xFD, 0x01, 0x02] = true := by decide
+
+end Rdp.Codec
